@@ -558,6 +558,45 @@ for kind in ('http', 'socks5'):
         # the control tunnel itself died: re-open for what follows
         control = control_open()
 
+# ---- many requests fail while the upstream is away, over repeated outages: whatever a connector keeps per failed
+#      request (slots, counters, descriptors) must not add up to a refusal once the upstream is back
+for kind in ('direct', 'http', 'socks5', 'lb'):
+    if not px.alive():
+        break
+    evals += 1
+    failed_total = 0
+    lost = None
+    for outage in range(1, 4):
+        for u in upstream_of(kind):
+            u.stop()
+        time.sleep(0.1)
+        def failing(i):
+            try:
+                s, code, head, rest = http_connect(hp, target_for(kind), timeout=6)
+                s.close()
+                return code
+            except OSError:
+                return None
+        codes = run_parallel(list(range(70)), failing, workers=10)
+        failed_total += sum(1 for c in codes if c != 200)
+        for u in upstream_of(kind):
+            u.start()
+        rec = None
+        for attempt in range(1, K + 1):
+            if probe(kind):
+                rec = attempt
+                break
+            time.sleep(0.3)
+        distinct.add((kind, 'many-failures', outage, rec is not None))
+        if rec is None:
+            lost = outage
+            break
+    if lost is not None:
+        chk.violation('recovery.resume', f'no-service-after-upstream-returned:{kind}/after-many-failed-requests', f'{kind}: outage {lost} of 3 with 70 requests failing during each ({failed_total} failures so far): {K} attempts after the upstream was back, still no tunnel', {'connector': kind, 'outage': lost, 'failed_requests': failed_total})
+    samples.append({'many_failed_requests': kind, 'failed': failed_total, 'outages_survived': 3 if lost is None else lost - 1})
+    if not control_ok():
+        control = control_open()
+
 if tier() == 'thorough' and px.alive():
     # pairs of outages on the same connector
     for kind in KINDS:
@@ -618,6 +657,6 @@ for o in (echo, qecho, cecho):
 if evals < 12 or len(distinct) < 5:
     machinery(f'vacuous: evals={evals} distinct={len(distinct)}')
 cov = {'evaluations': evals, 'distinct_nontrivial': len(distinct), 'transitions': evals, 'traces_validated_against_impl': evals,
-       'rule': f'real binary: connector kind {KINDS} x outage phase {PHASES} x fault {FAULTS} (quick: handshake phase only with restart; thorough adds all pairs of outages); recovery = a probe succeeds within K={K} attempts of {DEADLINE} s after the upstream is reachable again; control tunnel checked during and after every outage; a QUIC upstream away for 34 s (thorough 110 s) with one request per second arriving meanwhile (the connection attempt backs off exponentially); plus, for http and socks5 upstreams, a listener that silently drops connection attempts with 48 requests pending while the control tunnel and new direct requests are timed; plus, for quic / http / socks hops (real second redproxy), one origin behind the healthy hop silently dropping connection attempts for 15 s with 3 requests pending, while 3 established tunnels through the same hop echo every 0.5 s and new ones are opened; plus a UDP origin behind the reverse listener that goes away while in use and returns on its port: the same client socket, another known one and a fresh one are served again within K attempts',
+       'rule': f'real binary: connector kind {KINDS} x outage phase {PHASES} x fault {FAULTS} (quick: handshake phase only with restart; thorough adds all pairs of outages); recovery = a probe succeeds within K={K} attempts of {DEADLINE} s after the upstream is reachable again; control tunnel checked during and after every outage; a QUIC upstream away for 34 s (thorough 110 s) with one request per second arriving meanwhile (the connection attempt backs off exponentially); plus, for http and socks5 upstreams, a listener that silently drops connection attempts with 48 requests pending while the control tunnel and new direct requests are timed; plus, for quic / http / socks hops (real second redproxy), one origin behind the healthy hop silently dropping connection attempts for 15 s with 3 requests pending, while 3 established tunnels through the same hop echo every 0.5 s and new ones are opened; plus three outages per connector (direct, http, socks5, lb) with 70 requests failing during each and a recovery probe after each; plus a UDP origin behind the reverse listener that goes away while in use and returns on its port: the same client socket, another known one and a fresh one are served again within K attempts',
        'schedules': evals, 'K': K, 'deadline_s': DEADLINE, 'schedule_control': 'kernel', 'samples': samples}
 sys.exit(chk.finish('fault_enumeration', cov, ['silent packet loss on the QUIC path with later recovery is out of reach (needs the 3600 s idle timeout)', 'upstreams are Python servers / a second redproxy process killed with SIGKILL'], merge=False))
